@@ -134,6 +134,22 @@ def run(tier, seed):
                 v.violation("the peer closed the stream or broke framing but the connection is still registered", {**case, "steps": o["steps"]})
         if o["id"] % 60 == 0:
             v.sample({"frames": s["hist"], "alive": s["alive"], "registered_after": o["registered"], "delivered": {p: [e[0] for e in s["delivered"][p]] for p in ("P1", "P2")}})
+    # ---- a burst that outruns its recipient (Backpressure.tla: with the receiver waiting for room nothing is dropped): the peer writes
+    # mailbox capacity + 500 messages to a process that is stuck in its handler, then one to another process; once the first one
+    # resumes, every message must be there, in the order written, and the other process's message too
+    bp = os.path.join(lib.outdir(PID), "burst.ndjson")
+    lib.harness(["backpressure-run", 500, bp], timeout=300)
+    b = lib.read_ndjson(bp)[0]
+    if "tool_error" in b:
+        raise lib.ToolError("burst scenario: " + b["tool_error"])
+    v.case("burst")
+    bcase = {"messages_written_by_the_peer_for_the_slow_process": b["messages_for_the_slow_process"], "mailbox_capacity": b["mailbox_capacity"]}
+    if not b["delivered_in_order_without_gaps"]:
+        v.violation("a burst of messages for a live process that was slow to handle them was not delivered completely and in order", {**bcase, "delivered": b["delivered_to_the_slow_process"], "first_gap": b["first_gap"]})
+    if not b["fast_got_its_message_after_the_slow_one_resumed"]:
+        v.violation("a message for a live process that followed a burst for another process was never delivered", bcase)
+    if not b["still_connected"]:
+        v.violation("the connection did not survive a burst of well-formed messages", bcase)
     # ---- quiet periods (thorough only: real time against the hard-wired 10 s read timeout)
     v.cov["traces_validated_against_impl"] = len(obs)
     v.cov["rule"] = ("TLC: all frame sequences up to 3 over 5 good kinds x 4 recipient states (live, live+named, terminated, never existed), 9 junk kinds, 3 fatal kinds and a local "
